@@ -79,6 +79,11 @@ fn shim_btree_push<K>(m: &mut BTreeMap<K, Vec<Member>>, k: K, v: Member)
 fn shim_btree_insert<'d>(m: &mut BTreeMap<&'d str, ClassInProgress<'d>>, k: &'d str, v: ClassInProgress<'d>)
     ensures bmap(*final(m)) == bmap(*old(m)).insert(k, v),
 { unimplemented!() }
+// `map.entry(k).or_insert(v)`: keeps an existing value
+#[verifier::external_body]
+fn shim_btree_or_insert<'d>(m: &mut BTreeMap<&'d str, ClassInProgress<'d>>, k: &'d str, v: ClassInProgress<'d>)
+    ensures bmap(*final(m)) == (if bmap(*old(m)).contains_key(k) { bmap(*old(m)) } else { bmap(*old(m)).insert(k, v) }),
+{ unimplemented!() }
 // `..Default::default()` of the derived Default for ClassInProgress: empty name / maps / set and a default class record
 #[verifier::external_body]
 fn shim_default_cip<'d>() -> (r: ClassInProgress<'d>)
@@ -206,6 +211,29 @@ pub open spec fn stored_member(lm: Option<LineMapping>, t: StringTable, obfuscat
             } else { final(current_class).class.file_name_offset == old(current_class).class.file_name_offset && *final(string_table) == *old(string_table) },
         wf_cip(*old(current_class)) ==> wf_cip(*final(current_class)),
         final(current_class).name == old(current_class).name && final(current_class).unique_methods == old(current_class).unique_methods,
+{
+""", suffix="\n}\n")
+    # ---------------- final flush after the loop: the last class is stored like every other one ----------------
+    mfl = [m for m in re.finditer(r"if !current_class\.name\.is_empty\(\) \{", wf.orig)]
+    if len(mfl) < 2:
+        raise AnchorLost("write: final flush `if !current_class.name.is_empty() {` (second occurrence) not found")
+    fa = mfl[-1].start()
+    toks = wf._toks()
+    from vf.rustlex import match_close
+    i = next(ix for ix, t in enumerate(toks) if t[1] == mfl[-1].end() - 1)
+    fb = toks[match_close(wf.orig, toks, i)][2]
+    r4 = Fragment(u, wf.file, raw.src, wf.start + fa, wf.start + fb, "region", "final-flush")
+    r4.qualname = "%s[final-flush]" % wf.qualname
+    r4.contracted = True
+    r4.props_all = ["C04", "C02", "C09"]
+    r4.props_safety = ["C13"]
+    r4.replace_all_re(r"classes\.insert\(current_class\.name, current_class\);", "shim_btree_insert(classes, current_class.name, current_class);", "R2", min_count=0)
+    r4.replace_all_re(r"classes\.entry\(current_class\.name\)\.or_insert\(current_class\);", "shim_btree_or_insert(classes, current_class.name, current_class);", "R2",
+                      why="BTreeMap entry API (or_insert keeps an existing value) behind a shim", min_count=0)
+    u.emit(r4, prefix="""fn region_writer_final_flush<'d>(classes: &mut BTreeMap<&'d str, ClassInProgress<'d>>, current_class: ClassInProgress<'d>)
+    ensures
+        /*@L:last_class_is_stored_like_every_other_one_last_definition_wins:C04,C02,C09*/ bmap(*final(classes))
+            == (if current_class.name@.len() > 0 { bmap(*old(classes)).insert(current_class.name, current_class) } else { bmap(*old(classes)) }),
 {
 """, suffix="\n}\n")
     u.raw(FOOTER, "footer")
